@@ -275,7 +275,16 @@ def r4_linked(repo, report):
         b = "None" if r.valuation.get("isnone:BM") else "BM"
         return o.replace("LinkedMatch(FM, BM, self)", f"LinkedMatch({f}, {b}, self)")
 
-    mism, n, _ = check_table(rows, roles, exp2, out2)
+    # a match is returned only after BOTH parts were searched (a required 3' part cannot be known to be present otherwise)
+    unsearched = [r.describe()["valuation"] for r in rows if norm(r) != "None" and r.exit[0] == "return" and not any(c[2] == "self.back_adapter.match_to" for c in r.calls)]
+    report.ob("C09.R4", "LinkedAdapter.match_to searches the 3' part before it returns a match", not unsearched, facts={"paths_returning_a_match_without_searching_the_3prime_part": unsearched[:2]},
+              expected="every path that returns a LinkedMatch has called back_adapter.match_to", loc=repo.loc(fn),
+              why="" if not unsearched else "a match is returned without looking for the 3' part: when that part is required the read is trimmed although the required part is missing")
+    try:
+        mism, n, _ = check_table(rows, roles, exp2, out2)
+    except Unrecognised as u:
+        report.unrecognised("C09.R4", "LinkedAdapter.match_to result", u.what, repo.loc(fn))
+        mism, n = [], 0
     report.ob("C09.R4", "LinkedAdapter.match_to result", not mism, facts={"rows": len(rows), "mismatches": mism[:4]}, expected="None iff a required part is missing or nothing matched; else LinkedMatch(front, back, self)", loc=repo.loc(fn), cases=n,
               why=(f"for {mism[0]['inputs']}: code '{mism[0]['code']}', expected '{mism[0]['expected']}'" if mism else ""))
     bad = []
